@@ -22,11 +22,16 @@ import (
 // and max_idle_timeout must never be answered with a FLOW_CONTROL_ERROR, STREAM_LIMIT_ERROR,
 // FRAME_ENCODING_ERROR or an early idle timeout. Values the Config already covers are kept.
 // (The active_connection_id_limit is handled by connIDManager.SetConnectionIDLimit.)
+// noIdleTimeout stands for "no idle timeout" as a Config.MaxIdleTimeout: decades, yet far from
+// overflowing the deadline arithmetic of the run loop.
+const noIdleTimeout = time.Duration(math.MaxInt64 / 4)
+
 func configCoveringSpec(conf *Config, spec *QUICSpec) *Config {
 	if spec == nil || spec.ClientHelloSpec == nil {
 		return conf
 	}
 	c := conf.Clone()
+	advertisesIdleTimeout := false
 	for _, ext := range spec.ClientHelloSpec.Extensions {
 		qtp, ok := ext.(*tls.QUICTransportParametersExtension)
 		if !ok {
@@ -54,13 +59,26 @@ func configCoveringSpec(conf *Config, spec *QUICSpec) *Config {
 					c.EnableDatagrams = true
 				}
 			case tls.MaxIdleTimeout:
-				// in milliseconds; values that do not fit a time.Duration are not raised to
-				if uint64(v) <= uint64(math.MaxInt64/int64(time.Millisecond)) {
-					c.MaxIdleTimeout = max(c.MaxIdleTimeout, time.Duration(v)*time.Millisecond)
+				// in milliseconds; 0 means "no idle timeout", like leaving the parameter out
+				if v > 0 {
+					advertisesIdleTimeout = true
+					if uint64(v) <= uint64(noIdleTimeout/time.Millisecond) {
+						c.MaxIdleTimeout = max(c.MaxIdleTimeout, time.Duration(v)*time.Millisecond)
+					} else {
+						c.MaxIdleTimeout = noIdleTimeout
+					}
 				}
 			}
 		}
 		break // newUClientConnection uses the first QUICTransportParametersExtension
+	}
+	// A spec that does not advertise max_idle_timeout tells the peer that this endpoint has no idle
+	// timeout: the idle timeout in effect is then the peer's own value, or none if the peer does not
+	// advertise one either (RFC 9000, Section 10.1). Timing out after Config.MaxIdleTimeout all the
+	// same would drop a connection the peer rightly considers alive. (The handshake idle timeout
+	// still applies; applyTransportParameters takes the minimum with the peer's value.)
+	if !advertisesIdleTimeout {
+		c.MaxIdleTimeout = noIdleTimeout
 	}
 	// the auto-tuning maxima must not be below the initial windows
 	c.MaxStreamReceiveWindow = max(c.MaxStreamReceiveWindow, c.InitialStreamReceiveWindow)
